@@ -18,6 +18,7 @@ tools/rs2lean_fn.py — regenerates Lean definitions from the SOURCE TEXT of sel
   fn:schur    /repo/yui-matrix/src/sparse/schur.rs                 -> lean/Yuiv/Gen/SchurFn.lean    (Props/C08Gen.lean)
   fn:reducer  /repo/yui-homology/src/utils/chain_reducer.rs        -> lean/Yuiv/Gen/ReducerFn.lean  (Props/C08GenR.lean)
   fn:geninfo  /repo/yui-khovanov/src/misc.rs (collect_gen_info)         -> lean/Yuiv/Gen/GenInfoFn.lean  (Props/C03Gen.lean; renderer tools/rs2lean_poly.py)
+  fn:link     /repo/yui-link/src/link/{crossing,path,link}.rs      -> lean/Yuiv/Gen/LinkFn.lean     (Props/C18Gen.lean; renderer tools/rs2lean_link.py)
   fn:poly     /repo/yui/src/types/lc/lc.rs + poly/{poly,var,var2,h_poly,mdeg,mvar}.rs -> lean/Yuiv/Gen/PolyFn.lean (Props/C16Gen.lean; renderer tools/rs2lean_poly.py)
 
 Additions for fn:misc / fn:snf (see the target entries in TARGETS and Yuiv/Model/RustIter.lean, RustDense.lean):
@@ -461,6 +462,34 @@ TARGETS = {
                "`usize` is `Nat` with checked subtraction, `tors()[i]` panics out of range; `for` loops are `Poly.forM` folds.",
                "`Yuiv/Props/C03Gen.lean` proves it equal to the hand-written model `C03.collect` (`Yuiv/Model/C03.lean`)."],
         required=[("misc", None, "collect_gen_info")]),
+    "link": dict(
+        src=["/repo/yui-link/src/link/crossing.rs", "/repo/yui-link/src/link/path.rs", "/repo/yui-link/src/link/link.rs"],
+        out="LinkFn.lean", ns="Yuiv.GenLink", scalar=None, macros=False, fuel_param=True, custom="link",
+        structs=["Crossing", "Path", "Link"],
+        only={"Path": ["new", "arc", "circ", "is_arc", "is_circle"]},
+        exclude=[("Link", "is_empty"), ("Link", "edges"), ("Link", "first_edge"), ("Link", "is_valid_name"), ("Link", "load"),
+                 ("Link", "_load"), ("Crossing", "is_adj_to")],
+        imports=["Yuiv.Model.Res", "Yuiv.Model.RustLink"],
+        blurb=["The inherent functions of `CrossingType`, `Crossing` (yui-link/src/link/crossing.rs), `Link` (link/link.rs) and the",
+               "constructors of `Path` (link/path.rs), rendered by tools/rs2lean_link.py in `do` notation over `Res`.",
+               "A function is `Res`-valued iff it (or something it calls) can panic or mutates; `debug_assert!` is an `assert!`",
+               "(debug build); `usize` / `Edge` is `Nat` with CHECKED subtraction; `[Edge; 4]` is `Lk.Arr4 Nat`, `Vec` / iterators are",
+               "lists, `v[i]` panics out of range; `HashSet<Edge>` is the log of the inserted labels (only `contains` is asked);",
+               "`&mut self` methods return the new value, `crossing_at_mut` (returns `&mut Crossing`) is a modifier taking the",
+               "continuation `k_`; the `FnMut(usize, usize)` parameter of `traverse_edges` is read as the LOG of its calls (the",
+               "function returns the list of `(i, j)` it calls `f` with; at the call sites in `components` / `crossing_signs` the",
+               "closure body runs as a `for` over that list); the local closures `traverse` are inlined at their calls, `comp` of",
+               "`Crossing::arcs` is a local function; `loop` runs on the argument `fuel` (`Res.err` when exhausted); `Bit`, `Sign`,",
+               "`State = BitSeq` are the types of Yuiv/Model/RustLink.lean.  Excluded (not attempted): `Path` beyond its",
+               "constructors, `Link::{is_empty, edges, first_edge, is_valid_name, load, _load}`, `Crossing::is_adj_to`, trait impls.",
+               "`Yuiv/Props/C18Gen.lean` proves them equal to the hand-written model `Yuiv/Model/C18.lean`."],
+        required=_req("CrossingType", ("mirror",)) +
+                 _req("Crossing", ("new", "from_pd_code", "ctype", "edge", "edges", "is_resolved", "resolve", "resolved", "mirror",
+                                   "pass", "arcs", "convert_edges")) +
+                 _req("Path", ("new", "arc", "circ")) +
+                 _req("Link", ("new", "from_pd_code", "data", "crossing_num", "signed_crossing_nums", "crossing_signs", "writhe",
+                               "components", "crossing_index", "crossing_at", "crossing_at_mut", "resolved_at", "resolved_by",
+                               "mirror", "pass_edge", "traverse_edges", "ori_pres_state", "seifert_circles", "is_knot"))),
     "intext": dict(
         src=["/repo/yui/src/misc/int_ext.rs", "/repo/yui/src/abst/euc_ring.rs"], out="IntExtFn.lean",
         ns="Yuiv.GenIntExt", scalar="Z", macros=True, fuel_param=True,
@@ -616,6 +645,7 @@ class Parser:
     features = set()      # enabled cargo features (none: every `cfg(feature = "..")` item / branch is dropped)
     const_generics = False      # target option: `const D: i32` parameters are value parameters
     incl_ranges = False         # accept `a..=b` (node `range` with `incl`); only the fn:poly renderer sets it
+    body_use_braces = False     # accept (and ignore) `use a::{B, C};` inside a body; only the fn:link renderer sets it
 
     def __init__(self, toks, pos=0, end=None):
         self.cparams_seen = []
@@ -887,6 +917,7 @@ class Parser:
                 self.next(); segs = []
                 while not self.at(";"):
                     x = self.next()
+                    if Parser.body_use_braces and x.kind == "p" and x.val in ("{", "}", ","): continue
                     if x.kind == "eof" or (x.kind == "p" and x.val in "{}"):
                         raise Unsupported(f"`use` with a brace list inside a function body (line {t.line})")
                     if x.val != "::": segs.append(str(x.val))
@@ -5389,6 +5420,9 @@ def generate(src_text, src_label, target="bitseq"):
     if cfg.get("custom") == "poly":          # own renderer (tools/rs2lean_poly.py) on top of this file's parser
         import rs2lean_poly
         return rs2lean_poly.generate(texts, src_label, cfg, sys.modules[__name__])
+    if cfg.get("custom") == "link":          # own renderer (tools/rs2lean_link.py) on top of this file's parser
+        import rs2lean_link
+        return rs2lean_link.generate(texts, src_label, cfg, sys.modules[__name__])
     toks, allids, mod = None, set(), None
     Parser.const_generics = bool(cfg.get("const_generics"))
     Parser.turbofish = bool(cfg.get("csc") or cfg.get("sp13") or cfg.get("abs"))
